@@ -121,6 +121,8 @@ var c19RaiseKinds = []struct {
 	// a binding that takes a slot of the shared script throttle and raises while it holds it
 	{"throttled-binding-raises-on-index", `image.config(manifest.getList(CR.REPO .. ":v1"))`, false},
 	{"throttled-binding-raises-on-head", `image.config(manifest.head(CR.REPO .. ":v1"))`, false},
+	// ... and one that raises on the local side (the tar file cannot be created) after taking the slot
+	{"throttled-binding-raises-on-local-file", `image.exportTar(CR.REPO .. ":v1", OUT .. "/c19-no-such-dir/x.tar")`, false},
 }
 
 // c19Case is one enumerated case; it is also the replay payload.
